@@ -121,6 +121,7 @@ def build_gram(setname):
     tmp = d + '.tmp%d' % os.getpid()
     shutil.rmtree(tmp, ignore_errors=True); os.makedirs(tmp)
     ntus = 4 if setname == 'big' else max(NCPU * 2, 8)
+    if setname == 'lift': flags = flags + ['-DREF_MAXT=4']
     r = sh([sys.executable, os.path.join(VERIF, 'gen', 'gram_frames.py'), setname, tmp, str(ntus)])
     if r.returncode != 0: harness_error('frame generation failed: ' + r.stderr)
     jobs = []
